@@ -154,7 +154,11 @@ def build_prop(pid, variant="", want_fuzz=False, quiet=True):
     flags = BASEFLAGS + san + vflags + ["-I", os.path.join(REPO, "include"), "-I", cfginc, "-I", os.path.join(VERIF, "harness"),
                                        "-include", os.path.join(VERIF, "harness", "common", "st_hook.h")]
     srcs = harness_sources(pid)
-    key = file_hash(tree_files(os.path.join(REPO, "include")) + [os.path.join(cfginc, "st_config.h")] + srcs, " ".join(flags + spec.get("ldflags", [])) + REPO + eng["engine"] + BUILD_VERSION)
+    ld = list(spec.get("ldflags", []))
+    if "alloc_track.h" in open(srcs[0]).read():      # C allocator calls of the harness object go through the registry / fault injector too
+        flags = flags + ["-DVERIF_WRAP_MALLOC"]
+        ld += ["-Wl,--wrap=malloc", "-Wl,--wrap=calloc", "-Wl,--wrap=realloc", "-Wl,--wrap=free"]
+    key = file_hash(tree_files(os.path.join(REPO, "include")) + [os.path.join(cfginc, "st_config.h")] + srcs, " ".join(flags + ld) + REPO + eng["engine"] + BUILD_VERSION)
     tag = pid + ("-" + variant if variant else "") + ALT_TAG
     d = os.path.join(BUILD, "prop-%s-%s" % (tag, key))
     binp = os.path.join(d, "prop")
@@ -169,10 +173,10 @@ def build_prop(pid, variant="", want_fuzz=False, quiet=True):
     src = srcs[0]   # prop_<pid>.cpp
     jobs = []
     if not os.path.exists(binp):
-        jobs.append(("prop", [CXX] + flags + [src, eng["engine_tsan" if tsan else "engine"], "-lrapidcheck", "-lpthread"] + spec.get("ldflags", []) + ["-o", binp]))
+        jobs.append(("prop", [CXX] + flags + [src, eng["engine_tsan" if tsan else "engine"], "-lrapidcheck", "-lpthread"] + ld + ["-o", binp]))
     if want_fuzz and not os.path.exists(fuzzp):
         fz = [("-fsanitize=fuzzer,address,undefined" if f.startswith("-fsanitize=address") else f) for f in flags]
-        jobs.append(("fuzz", [CXX] + fz + [src, eng["fuzz"]] + spec.get("ldflags", []) + ["-o", fuzzp]))
+        jobs.append(("fuzz", [CXX] + fz + [src, eng["fuzz"]] + ld + ["-o", fuzzp]))
     procs = [(n, j, subprocess.Popen(j, stdout=subprocess.PIPE, stderr=subprocess.STDOUT, text=True)) for n, j in jobs]
     for n, j, p in procs:
         out, _ = p.communicate()
